@@ -374,7 +374,7 @@ func ResolveIte(t *sym.Term, asg map[*sym.Term]bool) *sym.Term {
 				return r
 			}
 		}
-		if t.Op == "ite" {
+		if t.Op == "ite" && allAtomsIn(FTerm(t.Args[0]), asg) {
 			if FTerm(t.Args[0]).eval(asg) {
 				r = rec(t.Args[1])
 			} else {
@@ -551,4 +551,52 @@ func fAtomsOf(set map[*sym.Term]bool) *Formula {
 		s = append(s, &Formula{Kind: "atom", Atom: a})
 	}
 	return &Formula{Kind: "or", Sub: s}
+}
+
+func allAtomsIn(f *Formula, asg map[*sym.Term]bool) bool {
+	set := map[*sym.Term]bool{}
+	f.atoms(set)
+	for a := range set {
+		if _, ok := asg[a]; !ok {
+			return false
+		}
+	}
+	return true
+}
+
+// CheckUnder enumerates the consistent valuations satisfying cond (over the atoms of cond, of the
+// conditions of the merged values vals and of the ite-conditions inside terms) and calls fn on each;
+// fn returns "" or a description of the mismatch.
+func CheckUnder(cond *Formula, vals []absint.Val, terms []*sym.Term, fn func(asg map[*sym.Term]bool) string) (bool, string) {
+	set := map[*sym.Term]bool{}
+	for _, v := range vals {
+		choiceAtoms(v, set)
+	}
+	fs := []*Formula{cond}
+	if len(set) > 0 {
+		fs = append(fs, fAtomsOf(set))
+	}
+	msg := ""
+	n := 0
+	err := Valuations(fs, terms, func(asg map[*sym.Term]bool, describe func() string) bool {
+		if !cond.eval(asg) {
+			return true
+		}
+		n++
+		if m := fn(asg); m != "" {
+			msg = m + " when " + describe()
+			return false
+		}
+		return true
+	})
+	if err != nil {
+		return false, err.Error()
+	}
+	if msg != "" {
+		return false, msg
+	}
+	if n == 0 {
+		return false, "the condition is unsatisfiable (vacuous)"
+	}
+	return true, fmt.Sprintf("%d valuations", n)
 }
